@@ -39,7 +39,7 @@ def plan(tier: str) -> dict:
             for off in range(1, n):
                 cases.append({"worker": worker, "case": {"proto": "h2", "req": k, "split": off}})
     return {
-        "runs": 20000 if tier == "quick" else 400000,
+        "runs": 20000 if tier == "quick" else 800000,
         "budget": 150 if tier == "quick" else 900,
         "cases": cases,
         "chunk": 40,
